@@ -24,7 +24,10 @@ unsigned case_timeout_s() { return 1800; }
 // hll8_large_lgk: HLL_8 sketches of lg_k 16 (thorough also 17) with n = 11k, beyond the last point of the composite interpolation
 // table (10k): published errors of 0.3-0.4% make a small relative bias of HIP or composite estimate visible with few trials.
 enum Fam { F_HLL4, F_HLL6, F_HLL8, F_HLL_UNION, F_HLL_UNION_MIXED, F_RAW, F_HLL_REUSE = F_RAW + 9, F_HLL_UNION_REUSE, F_HLL8_LARGE,
-           F_SETSRC_ALONE, F_SETSRC_AFTER_RAW, F_SETSRC_INTO_HLL_GADGET, F_SETSRC_THEN_RAW, F_ROLLUP, F_DOWN4, F_DOWN6, F_DOWN8, F_N };
+           F_SETSRC_ALONE, F_SETSRC_AFTER_RAW, F_SETSRC_INTO_HLL_GADGET, F_SETSRC_THEN_RAW, F_ROLLUP, F_DOWN4, F_DOWN6, F_DOWN8, F_CROSSOVER, F_N };
+// hll_union_crossover_hires: union results (composite estimator) at n/k = 2.0, 2.3, 2.6, 2.9, 3.2 - where the composite estimator hands
+//   over from linear counting to the interpolated HLL estimate - with thousands of trials, additionally under the high-resolution
+//   two-sided interval clause (kappa-scaled tolerance 5pp / 1pp / 0.5pp, vf/c06_common.hpp).
 // hll{4,6,8}_downsample_large_n: two sources of lg_k 7 (thorough also 8) of one target type with 2^22 keys each (registers 16 and above)
 //   are folded into a union of lg_max_k 6: few trials, but an error in reading large registers moves the estimate by far more than the
 //   published error.
@@ -37,7 +40,7 @@ static const char* FAM_NAME[] = {"hll4", "hll6", "hll8", "hll_union", "hll_union
   "hll_union_sketch_raw_finer", "hll_union_sketch_raw_equal", "hll_union_sketch_raw_coarser",
   "hll_union_raw_sketch_finer", "hll_union_raw_sketch_equal", "hll_union_raw_sketch_coarser",
   "hll_union_sketch_raw_sketch_finer", "hll_union_sketch_raw_sketch_equal", "hll_union_sketch_raw_sketch_coarser", "hll_reuse", "hll_union_reuse", "hll8_large_lgk",
-  "hll_union_set_source_alone", "hll_union_set_source_after_raw", "hll_union_set_source_into_hll_gadget", "hll_union_set_source_then_raw", "hll_union_rollup", "hll4_downsample_large_n", "hll6_downsample_large_n", "hll8_downsample_large_n"};
+  "hll_union_set_source_alone", "hll_union_set_source_after_raw", "hll_union_set_source_into_hll_gadget", "hll_union_set_source_then_raw", "hll_union_rollup", "hll4_downsample_large_n", "hll6_downsample_large_n", "hll8_downsample_large_n", "hll_union_crossover_hires"};
 static const target_hll_type TYPES[] = {HLL_4, HLL_6, HLL_8};
 
 static std::vector<Cell> build_cells(bool thorough) {
@@ -62,6 +65,16 @@ static std::vector<Cell> build_cells(bool thorough) {
     Cell x; x.fam = f; x.lg_k = 15; x.mi = 0; x.trials = thorough ? 800 : 200; x.n = 16384; x.cost = 1.5 * static_cast<double>(x.n) * x.trials; cells.push_back(x);
     if (f <= F_SETSRC_AFTER_RAW || thorough) { x.lg_k = 17; x.trials = thorough ? 400 : 100; x.n = 49152; x.cost = 1.5 * static_cast<double>(x.n) * x.trials; cells.push_back(x); }
     if (thorough) { x.lg_k = 12; x.trials = 600; x.n = 16384; x.cost = 1.5 * static_cast<double>(x.n) * x.trials; cells.push_back(x); x.lg_k = 15; x.n = 65536; x.cost = 1.5 * static_cast<double>(x.n) * x.trials; cells.push_back(x); }
+  }
+  for (uint8_t lg : {uint8_t(8), uint8_t(10), uint8_t(12)}) {
+    if (lg == 12 && !thorough) continue;
+    for (int tenths : {20, 23, 26, 29, 32}) {
+      Cell x; x.fam = F_CROSSOVER; x.lg_k = lg; x.mi = 4; x.n = (static_cast<uint64_t>(tenths) << lg) / 10;
+      const bool core = tenths == 26 || tenths == 29;
+      x.trials = lg == 8 ? 10000 : (lg == 10 ? (core ? 10000 : 2500) : (core ? 6000 : 2000));
+      if (thorough && lg < 12) x.trials *= 2;
+      x.cost = 1.3 * static_cast<double>(x.n) * x.trials + 6000.0 * x.trials; cells.push_back(x);
+    }
   }
   for (int f = F_DOWN4; f <= F_DOWN8; ++f) {
     Cell x; x.fam = f; x.lg_k = 6; x.mi = 0; x.trials = f == F_DOWN6 ? (thorough ? 12 : 4) : (thorough ? 6 : 2); x.n = 1ULL << 23; x.cost = static_cast<double>(x.n) * x.trials; cells.push_back(x);
@@ -204,7 +217,7 @@ void run_case(uint64_t idx, Rng& r) {
       tr.push_back(observe(u, n, fam, ctx));
       if (u.get_current_mode() == HLL) { count_first_after_merge(tr.back().c); if (u.is_out_of_order_flag()) any_ooo_union = true; }
       if (t + 1 == cell.trials) persistent.reset();
-    } else if (cell.fam >= F_RAW) {
+    } else if (cell.fam >= F_RAW && cell.fam < F_RAW + 9) {
       const int order = (cell.fam - F_RAW) / 3, rel = (cell.fam - F_RAW) % 3;
       const uint8_t op_lg = static_cast<uint8_t>(cell.lg_k + (rel == 0 ? 2 : 0)), max_lg = static_cast<uint8_t>(cell.lg_k + (rel == 2 ? 2 : 0));
       const bool est_between = t & 1;
@@ -243,6 +256,7 @@ void run_case(uint64_t idx, Rng& r) {
       const uint64_t a_end = n - n * 2 / 5, b_begin = n * 2 / 5;
       // mixed family: A is two steps finer than the union (lg_max_k = lg_k) and B; the feeding order alternates
       const bool mixed = cell.fam == F_HLL_UNION_MIXED;
+      if (cell.fam == F_CROSSOVER) count("mc_crossover_trials");
       hll_sketch a(static_cast<uint8_t>(cell.lg_k + (mixed ? 2 : 0)), TYPES[t % 3]), b(cell.lg_k, TYPES[(t / 3) % 3]);
       for (uint64_t i = 0; i < a_end; ++i) a.update(key(i));
       for (uint64_t i = b_begin; i < n; ++i) b.update(key(i));
@@ -269,6 +283,7 @@ void run_case(uint64_t idx, Rng& r) {
   // exact-class cells (every trial in LIST/SET mode): the error is a rare collision event, so the per-trial
   // small-range window replaces the bias/spread statistics; coverage is still checked.
   const CellResult R = check_cell(tr, n, rse, fam, ctx, !all_exact, true);
+  if (cell.fam == F_CROSSOVER) { const std::string rec = check_interval_miss(tr, n, fam, ctx); count("mc_hires_cells"); sample("{\"hires_cell\":" + jstr(rec) + "}"); }
   if (!all_exact && (cell.fam < F_HLL_UNION || cell.fam == F_HLL8_LARGE)) {
     // composite estimator of a plain sketch: bias/spread against the published non-HIP error
     std::vector<Trial> ct = tr;
